@@ -4,7 +4,7 @@ import vlib, uperlib
 
 
 def run(v):
-    t, zoo, vec, summ, ssum = uperlib.uper_check(v, "C01", classes={"roundtrip", "stream", "write-panic"}, with_stream=True, with_trace=True)
+    t, zoo, vec, summ, ssum = uperlib.uper_check(v, "C01", classes={"roundtrip", "stream", "write-panic", "dev-mismatch"}, with_stream=True, with_trace=True)
     st = summ["stats"]
     v.cov["distinct_nontrivial"] = st.get("encoded", 0)
     v.cov["rule"] = ("Every (type, value) vector of the TLA+ zoo (MC_Uper; %d types compiled by the real asn_to_rust! macro, large lengths in "
